@@ -38,6 +38,8 @@ type Atom struct {
 	Via      string         // non-empty when inherited from an unexported helper
 	Conj     string         // shapes of sibling leaves that must hold jointly (conjunctive guard)
 	Skip     bool           // `if cond { continue }` filter inside a loop
+	ViaTags  []string       // blame tags attached by the caller's guard through which this atom was inherited
+	Outer    *Atom          // the caller's atom through which this atom was inherited
 }
 
 // Sig is the inventory signature (without strength).
@@ -1236,6 +1238,11 @@ func (g *GuardEngine) flatAtoms(fd *FuncDecl, onPath map[*FuncDecl]bool, depth i
 				if cp.Via == "" {
 					cp.Via = FuncKey(f)
 				}
+				// a check moved into a helper keeps the blame attached at the call site
+				if len(cp.ViaTags) == 0 {
+					cp.ViaTags = append(append([]string{}, a.BlameTags()...), a.ViaTags...)
+				}
+				cp.Outer = a
 				out = append(out, &cp)
 			}
 		}
@@ -1272,7 +1279,11 @@ func (g *GuardEngine) InventoryOf(fd *FuncDecl) Inventory {
 		if as := a.ArgSig(); as != "" {
 			c.Args = append(c.Args, as)
 		}
-		for _, t := range a.BlameTags() {
+		tags := a.BlameTags()
+		if len(tags) == 0 {
+			tags = a.ViaTags
+		}
+		for _, t := range tags {
 			c.Tags = append(c.Tags, t)
 		}
 	}
